@@ -152,6 +152,9 @@ def config_sections(ctx):
                 if isinstance(st, ast.Assign) and U(st.targets[0]) == 'section' and isinstance(const(st.value), str):
                     sec = const(st.value)
                 for cc in calls_in(st) if isinstance(st, ast.Expr) else []:
+                    if isinstance(cc.func, ast.Attribute) and cc.func.attr == 'add_section' and len(cc.args) == 1 \
+                            and isinstance(const(cc.args[0]), str) and sec is None:
+                        sec = const(cc.args[0])       # the section named directly (no local `section`)
                     if isinstance(cc.func, ast.Attribute) and cc.func.attr == 'set' and len(cc.args) == 3:
                         k = const(cc.args[1])
                         if k in ('name', 'directory'):
@@ -164,6 +167,8 @@ def config_sections(ctx):
                                 if isinstance(inner, ast.Name) and inner.id not in params(fn) and len([1 for s_, vv in fstores.get(inner.id, []) if vv is not None]) == 1:
                                     # the list is computed inside the callee from a parameter: create_filename_list(<param>)
                                     dv = [vv for s_, vv in fstores[inner.id] if vv is not None][0]
+                                    if isinstance(dv, ast.List):
+                                        rec['filenames'] = ('const', [const(e) for e in dv.elts])
                                     if isinstance(dv, ast.Call) and call_name(dv) == 'create_filename_list' and dv.args \
                                             and isinstance(dv.args[0], ast.Name) and dv.args[0].id in params(fn):
                                         a = arg_for(c, fn, dv.args[0].id, bound=False)
